@@ -154,6 +154,7 @@ class Process(StateMachine, persistence.Savable, metaclass=ProcessStateMachineMe
     _spec_class = ProcessSpec
     # Default placeholders, will be populated in init()
     _stepping = False
+    _executing = False  # True while step() is executing the state (it can be interrupted then)
     _pausing: Optional[futures.CancellableAction] = None
     _paused: Optional[persistence.SavableFuture] = None
     _killing: Optional[futures.CancellableAction] = None
@@ -1148,9 +1149,10 @@ class Process(StateMachine, persistence.Savable, metaclass=ProcessStateMachineMe
             interrupt_exception = process_states.PauseInterruption(msg_text)
             self._set_interrupt_action_from_exception(interrupt_exception)
             self._pausing = self._interrupt_action
-            # Try to interrupt the state, unless the request comes from a hook or listener during a transition: the
-            # state is not being executed then and step() carries the action out as soon as the transition is complete
-            if not self._transitioning:
+            # Try to interrupt the state, unless the request comes from a hook or listener while step() is carrying out
+            # a transition or another request: the state is not being executed then, and step() carries this action
+            # out as soon as it is done with that
+            if self._executing:
                 self._state.interrupt(interrupt_exception)
             return cast(futures.CancellableAction, self._interrupt_action)
 
@@ -1294,7 +1296,7 @@ class Process(StateMachine, persistence.Savable, metaclass=ProcessStateMachineMe
             interrupt_exception = process_states.KillInterruption(msg_text)
             self._set_interrupt_action_from_exception(interrupt_exception)
             self._killing = self._interrupt_action
-            if not self._transitioning:
+            if self._executing:
                 self._state.interrupt(interrupt_exception)
             return cast(futures.CancellableAction, self._interrupt_action)
 
@@ -1376,6 +1378,7 @@ class Process(StateMachine, persistence.Savable, metaclass=ProcessStateMachineMe
             self._stepping = True
             next_state = None
             try:
+                self._executing = True
                 next_state = await self._run_task(self._state.execute)
             except process_states.Interruption as exception:
                 # If the interruption was caused by a call to a Process method then there is an interrupt
@@ -1393,6 +1396,8 @@ class Process(StateMachine, persistence.Savable, metaclass=ProcessStateMachineMe
                 # Overwrite the next state to go to excepted directly
                 next_state = self.create_state(process_states.ProcessState.EXCEPTED, *sys.exc_info()[1:])
                 self._set_interrupt_action(None)
+            finally:
+                self._executing = False
 
             if isinstance(next_state, process_states.Excepted):
                 # The step function raised (``Running.execute`` turns that into the EXCEPTED state): as for an exception
